@@ -1,7 +1,8 @@
 (* C16 - dependent-body selection is canonical: same keys, same schema, in any order.
    Only statements closed by [exact] of a lemma proved in Proofs/. *)
 From Coq Require Import String List ZArith Permutation.
-From HV Require Import Base.SortSpec Model.Addr Model.DepKeys Proofs.DepKeysProofs.
+From HV Require Import Base.SortSpec Base.Pos Model.Addr Model.DepKeys Model.Schema Model.Ast Model.Merge Model.Links
+                       Proofs.DepKeysProofs Proofs.LinksProofs.
 
 (* A schema key depends only on the (multi)set of key/value pairs, not on the order in which they
    are listed - for every list of label and attribute keys, repeated indices and names included. *)
@@ -15,3 +16,34 @@ Theorem C16_labels_sort_algorithm_independent : forall ls l1 l2,
   is_sort label_ltb ls l1 -> is_sort label_ltb ls l2 -> l1 = l2.
 Proof. exact labels_any_sort. Qed.
 Print Assumptions C16_labels_sort_algorithm_independent.
+
+(* ---- documentation links (Model/Links.v = LinksInFile) ---- *)
+
+(* A documentation link is attached to exactly the labels / attribute values that selected a body having a
+   link: the lookup of the block found a body with a DocsLink, the link carries that (decorated) URL and
+   tooltip, and its range is that of a label among the dependency keys in force, or the value of such an
+   attribute. *)
+Theorem C16_link_on_selecting_label_or_attribute : forall url ks k l,
+  In l (block_links url ks k) ->
+  exists dep dk res u tip,
+    dependent_body_schema ks k = (Some dep, dk, res) /\ res <> LookupFailed /\
+    bs_docs dep = Some (u, tip) /\ url u = Some (lk_uri l) /\ lk_tooltip l = tip /\
+    ((exists ld, In ld (dk_labels dk) /\ nth_error (k_label_rngs k) (Z.to_nat (ld_index ld)) = Some (lk_rng l))
+     \/ (exists ak a, In ak (dk_attrs dk) /\ find_attr (ak_name ak) (b_attrs (k_body k)) = Some a /\
+                      lk_rng l = expr_range (a_expr a))).
+Proof. exact link_on_selecting_item. Qed.
+Print Assumptions C16_link_on_selecting_label_or_attribute.
+
+(* the label keys in force are labels the schema marks as dependency keys, at their own index *)
+Theorem C16_label_keys_are_dependency_key_labels : forall ls labels i ld,
+  In ld (label_keys_prefix i ls labels) ->
+  exists j l, ld_index ld = Z.of_nat (i + j) /\ nth_error ls j = Some l /\ ls_depkey l = true /\
+              nth_error labels (i + j) = Some (ld_value ld).
+Proof. exact label_keys_prefix_depkey. Qed.
+Print Assumptions C16_label_keys_are_dependency_key_labels.
+
+(* the attribute keys in force are attributes the body marks as dependency keys *)
+Theorem C16_attribute_keys_are_dependency_key_attributes : forall sattrs attrs ak,
+  In ak (attr_keys sattrs attrs) -> exists s, In (ak_name ak, s) sattrs /\ af_depkey (as_flags s) = true.
+Proof. exact attr_keys_depkey. Qed.
+Print Assumptions C16_attribute_keys_are_dependency_key_attributes.
